@@ -108,7 +108,7 @@ func init() {
 		return nt
 	}
 	fw.Register(&fw.Prop{
-		ID: "C01", Cases: tierN(40000, 1500000), Run: snapRun(prValid, true, monC01f), Replay: snapReplay(true, monC01f),
+		ID: "C01", Cases: tierN(300000, 6000000), Run: snapRun(prValid, true, monC01f), Replay: snapReplay(true, monC01f),
 		Rule: "cases = generated valid polygons (exact validity test) x requested tile matrices x flags, placed on dyadic, NetherlandsRDNewQuad, WebMercatorQuad and ETRS89 grids; oracle = exact pairwise proper-crossing test on output pixel indices; non-trivial = routed chain has >= 4 distinct pixel centres at some requested matrix; distinct by hash of the concrete case",
 		Required: func(string) []string {
 			return []string{"mult:M1", "mult:M2", "mult:M3", "has_hole", "edge_through_pixel_corner", "vertex_on_pixel_border"}
@@ -159,7 +159,7 @@ func init() {
 		return nt
 	}
 	fw.Register(&fw.Prop{
-		ID: "C04", Cases: tierN(25000, 600000), Run: snapRun(prValid, true, monC04f), Replay: snapReplay(true, monC04f),
+		ID: "C04", Cases: tierN(200000, 2500000), Run: snapRun(prValid, true, monC04f), Replay: snapReplay(true, monC04f),
 		Rule: "cases as C01; oracle (a) every output vertex is the centre of a pixel containing an input vertex, (b) exact test that every output edge lies in the half-pixel Chebyshev tube of the input boundary, (c) half-pixel lattice samples farther than one pixel (Chebyshev) from the input boundary are covered by the output iff by the input; non-trivial = at least one interior and one exterior sample survived the distance filter",
 		Required: func(string) []string {
 			return []string{"hole_survives", "splits_into_parts", "part_collapses", "coverage_samples_inside", "coverage_samples_outside"}
@@ -205,7 +205,7 @@ func init() {
 		return nt
 	}
 	fw.Register(&fw.Prop{
-		ID: "C18", Cases: tierN(40000, 1500000), Run: snapRun(prC18, true, monC18f), Replay: snapReplay(true, monC18f),
+		ID: "C18", Cases: tierN(300000, 6000000), Run: snapRun(prC18, true, monC18f), Replay: snapReplay(true, monC18f),
 		Rule: "cases = valid polygons from the comb/sliver/spiky/rectholes/grow generators; judged only at tile matrices where the oracle's routed boundary visits no pixel centre more than twice; oracle = every output edge is a routed edge or a straight run, every hole in-or-on its shell, exact big-integer signed-area conservation; non-trivial = max multiplicity 2 or a chain with < 3 centres",
 		Required: func(string) []string {
 			return []string{"level_cases_with_M=2", "collapsed_chain", "multiple_output_polygons", "output_polygon_with_hole"}
